@@ -347,6 +347,26 @@ example :
         { f7Rf with tmpl := .obj [("spec", .obj [("a", .int 1)])] } f7Owner
         (some (.obj [("metadata", .obj [("name", .str "obj"), ("ownerReferences", .arr [f7Other])])]))).request.bind
       fun r => r.body).map fun b => (ownerRefsOf b).length) = some 2 := by decide
+/-- directives on maps inside lists that sit directly inside lists (any nesting) are removed too -/
+example :
+    noDirectiveKey (strip (.arr [.arr [.obj [("x-koreo-compare-as-set", .arr []), ("n", .int 1)],
+                                        .arr [.arr [.obj [("x-koreo-compare-as-map", .obj []), ("m", .int 2)]]]], .int 3])) = true ∧
+    strip (.arr [.arr [.obj [("x-koreo-compare-as-set", .arr []), ("n", .int 1)]]]) = .arr [.arr [.obj [("n", .int 1)]]] :=
+  ⟨by decide, by rfl⟩
+
+/-- a reference with the parent's kind and name but ANOTHER uid (an earlier incarnation of the
+    parent) does not count as the parent's: `ownerReffed` says no, and the patch adds ours after it
+    (`updatedOwnerRefs` and `ownerReffed` both decide by uid) -/
+example :
+    let stale : JVal := .obj [("kind", .str "Trigger"), ("name", .str "parent"), ("uid", .str "uid-previous")]
+    let stored : JVal := .obj [("metadata", .obj [("name", .str "obj"), ("ownerReferences", .arr [stale])])]
+    ownerReffed stored f7Parent = false ∧
+    (((reconcile (fun _ => "") "default" (fun _ _ => true) true
+        { f7Rf with tmpl := .obj [("spec", .obj [("a", .int 1)])] } f7Owner (some stored)).request.bind
+      fun r => r.body).map fun b =>
+        (hasUid (.str "uid-parent") (ownerRefsOf (mergePatch stored b)),
+         hasUid (.str "uid-previous") (ownerRefsOf (mergePatch stored b)))) = some (true, true) := by
+  decide
 end examples
 
 end Koreo.C08
